@@ -147,8 +147,9 @@ impl Prop for C05 {
                 s.policy = policy;
                 s
             });
-        (gen::site(60.0, 6.0), spec, gen::date(), prop_oneof![15 => Just(false), 1 => Just(true)])
-            .prop_map(|(site, spec, date, boundary_lon)| Case { site, spec, date, boundary_lon })
+        let site_date = prop_oneof![10 => (gen::site(60.0, 6.0), gen::date()), 1 => gen::ra_wrap_site_date(60.0, 6.0, 12.0)];
+        (site_date, spec, prop_oneof![15 => Just(false), 1 => Just(true)])
+            .prop_map(|((site, date), spec, boundary_lon)| Case { site, spec, date, boundary_lon })
             .boxed()
     }
     fn check(&self, c: &Case, st: &mut Stats) -> Result<(), Failure> {
